@@ -116,6 +116,7 @@ func xxhRecord(args []string) error {
 		return err
 	}
 	r := rng(*seed, "xxh-record")
+	var x lz4.VerifXXH32
 	for c := 1; c <= *n; c++ {
 		var ln int
 		switch r.Intn(4) {
@@ -130,9 +131,14 @@ func xxhRecord(args []string) error {
 			ln = r.Intn(*maxLen + 1)
 		}
 		data := randBytes(r, ln)
-		var x lz4.VerifXXH32
+		// two inputs per case through one object: the second Reset finds it with whatever the first input left
+		// buffered; the digest right after Reset (no Write yet) is the digest of the empty input
+		if c%2 == 1 {
+			x = lz4.VerifXXH32{}
+		}
+		c := (c + 1) / 2
 		x.Reset()
-		w.put(rec{"ev": "reset", "case": c})
+		w.put(stateEvent("reset", c, &x))
 		pos := 0
 		for pos < len(data) || r.Intn(4) == 0 {
 			k := 0
@@ -337,7 +343,7 @@ func xxhRerun(args []string) error {
 		switch e.Ev {
 		case "reset":
 			x.Reset()
-			w.put(rec{"ev": "reset", "case": e.Case})
+			w.put(stateEvent("reset", e.Case, &x))
 		case "write":
 			x.Write(bytesOf(e.Chunk))
 			r := stateEvent("write", e.Case, &x)
